@@ -26,6 +26,10 @@ FeePaths == {"pair.factory_update", "pair.direct_update", "pair.factory_create",
              \* the same over a token-factory denom (factory/<creator>/<sub>), whose instantiation takes a branch of its own
              "vault.factory_create_tf", "vault.instantiate_tf"}
 
+\* the collector's take rate travels in a message that can carry other fields along: the on/off switch (unset, on, off)
+\* and the address the take goes to; whatever comes along, the rate is accepted iff it is in range
+TakePaths == {"collector.update_take", "collector.update_take+on", "collector.update_take+off", "collector.update_take+dao"}
+
 Init ==
   /\ cfg = [pairOK |-> TRUE, trioOK |-> TRUE, vaultOK |-> TRUE, amp |-> 100, grace |-> 3, dur |-> MINDUR,
             growth |-> 1, assets |-> 2, take |-> 0]
@@ -44,7 +48,7 @@ WriteScalar(path, v) ==
   /\ Rec([w |-> path, p |-> 0, x |-> 0, b |-> 0, v |-> v])
   /\ cfg' = CASE path = "distributor.update_duration" /\ DurOK(v) -> [cfg EXCEPT !.dur = v]
               [] path = "lair.update_growth" /\ GrowthOK(v) -> [cfg EXCEPT !.growth = v]
-              [] path = "collector.update_take" /\ TakeOK(v) -> [cfg EXCEPT !.take = v]
+              [] path \in TakePaths /\ TakeOK(v) -> [cfg EXCEPT !.take = v]
               [] OTHER -> cfg
 
 \* beyond depth 1 only sequences of grace updates matter (the one parameter with a history rule)
@@ -57,7 +61,7 @@ Next ==
   \/ First /\ \E d \in Durs : WriteScalar("distributor.update_duration", d) \/ WriteScalar("distributor.instantiate_duration", d)
   \/ First /\ \E r \in Growths : WriteScalar("lair.update_growth", r) \/ WriteScalar("lair.instantiate_growth", r)
   \/ First /\ \E n \in AssetCounts : WriteScalar("lair.instantiate_assets", n)
-  \/ First /\ \E t \in Takes : WriteScalar("collector.update_take", t)
+  \/ First /\ \E t \in Takes, path \in TakePaths : WriteScalar(path, t)
   \/ First /\ \E a \in Amps : WriteScalar("trio.factory_create_amp", a) \/ WriteScalar("trio.instantiate_amp", a)
 Spec == Init /\ [][Next]_<<cfg, hist>>
 Depth == Len(hist) <= SchedDepth
